@@ -65,6 +65,8 @@ def plain(node):
     tsc = snapshot.typed_scalar(node)
     if tsc[0] in ("str", "int", "float", "bool", "null"):
         return tsc[1]
+    if tsc[0] == "date":
+        return stamp_text(node) or tsc[1]
     if tsc[0] == "tagged":
         # JSON has no tags: the value underneath is what can be shown
         return plain(node.value)
@@ -134,9 +136,51 @@ def doc_for(rng, **kw):
     return gd_document(rng, opts)
 
 
+TIMESTAMPS = ["2001-12-14T21:59:43-03:30", "2002-01-05T08:15:00+05:30",
+              "2003-07-01T00:00:01-09:30", "2004-02-29T23:59:59-05:00",
+              "2005-06-15T12:00:00", "2006-03-04"]
+_STAMPS = {}
+
+
+def stamp_text(node):
+    """
+    The spelling the document gave a timestamp (the generator only uses ISO
+    spellings, so that is also the expected rendering), found by instant.
+    """
+    import datetime as _dt
+    if not _STAMPS:
+        for raw in TIMESTAMPS:
+            if "T" not in raw:
+                _STAMPS[("date", raw)] = raw
+                continue
+            when = _dt.datetime.fromisoformat(raw)
+            if when.tzinfo is not None:
+                when = (when - when.utcoffset()).replace(tzinfo=None)
+            _STAMPS[("time", when.isoformat())] = raw
+    if isinstance(node, _dt.datetime):
+        found = _STAMPS.get(("time", node.replace(tzinfo=None).isoformat()))
+        if found is None and type(node).__name__ == "AnchoredDate":
+            found = _STAMPS.get(("date", node.date().isoformat()))
+        return found
+    if isinstance(node, _dt.date):
+        return _STAMPS.get(("date", node.isoformat()))
+    return None
+
+
 def gd_document(rng, opts):
-    gen = gen_docs.DocGen(rng, **opts)
+    gen = gen_docs.DocGen(rng, **{k: v for k, v in opts.items()
+                                  if not k.startswith("_")})
     doc = gen.document()
+    if opts.get("_stamps") and rng.random() < 0.5:
+        cands = [n for _s, n in gen_docs.positions(doc)
+                 if n["t"] == "s" and not n.get("a")
+                 and n.get("q") not in (">", "|")]
+        rng.shuffle(cands)
+        for node, raw in zip(cands[:rng.choice([1, 2, 3])],
+                             rng.sample(TIMESTAMPS, 3)):
+            node["raw"] = raw
+            node["v"] = raw
+            node["q"] = ""
     if rng.random() < 0.06:
         # a document larger than any pipe or reader buffer (8 KiB and up)
         pad = S("p" * rng.choice([5000, 9000, 70000]))
@@ -162,7 +206,7 @@ def render_doc(rng, doc, allow_json=True):
 
 
 def _has_special(doc):
-    return any(n["t"] in ("*", "S") or n.get("a") or
+    return any(n["t"] in ("*", "S") or n.get("a") or n.get("raw") or
                n.get("q") in (">", "|")
                for _s, n in gen_docs.positions(doc))
 
@@ -210,7 +254,7 @@ def gen_get(rng):
         return {"tool": "yaml-get", "opts": ["-p", path] + KEYOPTS,
                 "doc": text, "fname": W + "doc.yaml", "files": {},
                 "path": path, "pathsep": "auto", "eyaml": True}
-    doc = doc_for(rng)
+    doc = doc_for(rng, _stamps=rng.random() < 0.25)
     text, suffix = render_doc(rng, doc)
     path, sep = some_path(rng, doc)
     opts = ["-p", path]
@@ -276,6 +320,8 @@ def expect_get(scn):
             lines.append(("json", plain(node)))
         elif node is None:
             lines.append(("text", "\x00"))
+        elif stamp_text(node) is not None:
+            lines.append(("text", stamp_text(node)))
         else:
             lines.append(("text", str(node).replace("\n", "\\n")))
     return {"exit": 0 if lines else 1, "lines": lines}
